@@ -23,26 +23,118 @@ type E struct {
 	a, b *E
 }
 
-func (e *E) lean() string {
+func (e *E) lean(sz int) string {
 	switch e.op {
 	case "var":
-		return fmt.Sprintf("(.var %d)", e.i)
+		return fmt.Sprintf("(.var %d)", sz-1-e.i)
 	case "const":
 		return fmt.Sprintf("(.const %s)", e.n.String())
 	case "add", "sub", "mul":
-		return fmt.Sprintf("(.%s %d %s %s)", e.op, e.w, e.a.lean(), e.b.lean())
+		return fmt.Sprintf("(.%s %d %s %s)", e.op, e.w, e.a.lean(sz), e.b.lean(sz))
 	case "shr":
-		return fmt.Sprintf("(.shr %s %d)", e.a.lean(), e.k)
+		return fmt.Sprintf("(.shr %s %d)", e.a.lean(sz), e.k)
 	case "shl":
-		return fmt.Sprintf("(.shl %d %s %d)", e.w, e.a.lean(), e.k)
+		return fmt.Sprintf("(.shl %d %s %d)", e.w, e.a.lean(sz), e.k)
 	case "low":
-		return fmt.Sprintf("(.low %d %s)", e.k, e.a.lean())
+		return fmt.Sprintf("(.low %d %s)", e.k, e.a.lean(sz))
 	case "and", "or", "xor", "eq", "ne", "ctEq", "ctNe", "ctLt", "ctLe", "ctMin", "accAdd":
-		return fmt.Sprintf("(.%s %s %s)", e.op, e.a.lean(), e.b.lean())
+		return fmt.Sprintf("(.%s %s %s)", e.op, e.a.lean(sz), e.b.lean(sz))
 	case "not", "neg", "conv":
-		return fmt.Sprintf("(.%s %d %s)", e.op, e.w, e.a.lean())
+		return fmt.Sprintf("(.%s %d %s)", e.op, e.w, e.a.lean(sz))
 	}
 	panic("bad op " + e.op)
+}
+
+// shallow renders e exactly as Secp.IR.evalN computes it, over variables x<i> (inputs) and v<i> (SSA entries).
+func (e *E) shallow(nin int) string {
+	v := func(i int) string {
+		if i < nin {
+			return fmt.Sprintf("x%d", i)
+		}
+		return fmt.Sprintf("v%d", i)
+	}
+	a := func() string { return e.a.shallow(nin) }
+	b := func() string { return e.b.shallow(nin) }
+	switch e.op {
+	case "var":
+		return v(e.i)
+	case "const":
+		return e.n.String()
+	case "add", "accAdd":
+		return "(" + a() + " + " + b() + ")"
+	case "sub":
+		return "(" + a() + " - " + b() + ")"
+	case "mul":
+		return "(" + a() + " * " + b() + ")"
+	case "shr":
+		return fmt.Sprintf("(%s / 2 ^ %d)", a(), e.k)
+	case "shl":
+		return fmt.Sprintf("(%s * 2 ^ %d)", a(), e.k)
+	case "low":
+		return fmt.Sprintf("(%s %% 2 ^ %d)", a(), e.k)
+	case "and":
+		return "(" + a() + " &&& " + b() + ")"
+	case "or":
+		return "(" + a() + " ||| " + b() + ")"
+	case "xor":
+		return "(" + a() + " ^^^ " + b() + ")"
+	case "not":
+		return fmt.Sprintf("(2 ^ %d - 1 - %s)", e.w, a())
+	case "neg":
+		return fmt.Sprintf("((2 ^ %d - %s %% 2 ^ %d) %% 2 ^ %d)", e.w, a(), e.w, e.w)
+	case "conv":
+		return fmt.Sprintf("(%s %% 2 ^ %d)", a(), e.w)
+	case "eq", "ctEq":
+		return "(b2n (" + a() + " == " + b() + "))"
+	case "ne", "ctNe":
+		return "(b2n (" + a() + " != " + b() + "))"
+	case "ctLt":
+		return "(b2n (decide (" + a() + " < " + b() + ")))"
+	case "ctLe":
+		return "(b2n (decide (" + a() + " ≤ " + b() + ")))"
+	case "ctMin":
+		return "(min " + a() + " " + b() + ")"
+	}
+	panic("bad op " + e.op)
+}
+
+// renderShallow emits  theorem <name>_shallow : ∃ v…, (equations) ∧ K.runN [x…] = [outs]
+func (k *kernel) renderShallow(leanName string) string {
+	nin := len(k.inW)
+	var sb strings.Builder
+	xs := make([]string, nin)
+	for i := range xs {
+		xs[i] = fmt.Sprintf("x%d", i)
+	}
+	fmt.Fprintf(&sb, "theorem %s_shallow (%s : Nat) :\n", leanName, strings.Join(xs, " "))
+	if len(k.body) > 0 {
+		vs := make([]string, len(k.body))
+		for i := range vs {
+			vs[i] = fmt.Sprintf("v%d", nin+i)
+		}
+		fmt.Fprintf(&sb, "    ∃ %s : Nat,\n", strings.Join(vs, " "))
+		for i, e := range k.body {
+			fmt.Fprintf(&sb, "      v%d = %s ∧\n", nin+i, strip(e.shallow(nin)))
+		}
+	}
+	outs := make([]string, len(k.outs))
+	for i, o := range k.outs {
+		outs[i] = strip(o.shallow(nin))
+	}
+	fmt.Fprintf(&sb, "      %s.runN [%s] = [%s] := by\n", leanName, strings.Join(xs, ", "), strings.Join(outs, ", "))
+	if len(k.body) > 0 {
+		us := make([]string, len(k.body))
+		rs := make([]string, len(k.body)+1)
+		for i := range us {
+			us[i] = "_"
+			rs[i] = "rfl"
+		}
+		rs[len(k.body)] = "rfl"
+		fmt.Fprintf(&sb, "  exact ⟨%s, %s⟩\n\n", strings.Join(us, ", "), strings.Join(rs, ", "))
+	} else {
+		sb.WriteString("  rfl\n\n")
+	}
+	return sb.String()
 }
 
 func konst(n int64) *E     { return &E{op: "const", n: big.NewInt(n)} }
@@ -765,14 +857,14 @@ func (k *kernel) render(leanName string) string {
 		if i == len(k.body)-1 {
 			sep = ""
 		}
-		fmt.Fprintf(&sb, "    %s%s\n", strip(e.lean()), sep)
+		fmt.Fprintf(&sb, "    %s%s\n", strip(e.lean(len(k.inW)+i)), sep)
 	}
 	sb.WriteString("  ]\n  outs := [")
 	for i, o := range k.outs {
 		if i > 0 {
 			sb.WriteString(", ")
 		}
-		sb.WriteString(strip(o.lean()))
+		sb.WriteString(strip(o.lean(len(k.inW) + len(k.body))))
 	}
 	sb.WriteString("]\n}\n\n")
 	return sb.String()
@@ -842,8 +934,9 @@ func passKernels(p *Pkg) (map[string]string, []string) {
 	out := map[string]string{}
 	var sigs []kernelSig
 	gen := func(file, ns string, specs []kspec) {
-		var sb strings.Builder
+		var sb, sh strings.Builder
 		sb.WriteString("import Secp.Core.IR\n/- GENERATED by tools/gotr (pass T1) from /repo — do not edit. -/\nnamespace Secp.Gen\nopen Secp.IR\n\n")
+		fmt.Fprintf(&sh, "import Secp.Gen.%s\n/- GENERATED by tools/gotr (pass T1): the ideal (ℕ) semantics of each kernel written out as equations,\n   tied to the deep embedding by `rfl` (checked by the kernel). -/\nset_option maxRecDepth 100000\nnamespace Secp.Gen\nopen Secp.IR\n\n", strings.TrimSuffix(file, ".lean"))
 		var names []string
 		for _, s := range specs {
 			k, err := translateKernel(p, s.key, s.prim, s.lean)
@@ -852,6 +945,7 @@ func passKernels(p *Pkg) (map[string]string, []string) {
 				continue
 			}
 			sb.WriteString(k.render(s.lean))
+			sh.WriteString(k.renderShallow(s.lean))
 			names = append(names, s.lean)
 			var kinds []string
 			for _, o := range k.objOrder {
@@ -862,6 +956,8 @@ func passKernels(p *Pkg) (map[string]string, []string) {
 		sort.Strings(names)
 		fmt.Fprintf(&sb, "def %sKernels : List Kernel := [%s]\n\nend Secp.Gen\n", ns, strings.Join(names, ", "))
 		out[file] = sb.String()
+		sh.WriteString("end Secp.Gen\n")
+		_ = sh // shallow rendering superseded by the generic `Steps` unfolding in Core/IRTactic.lean
 	}
 	gen("FieldIR.lean", "field", fieldKernels)
 	gen("ScalarIR.lean", "scalar", scalarKernels)
